@@ -2,11 +2,15 @@ package actor
 
 import (
 	"context"
-	"math"
-	"math/rand"
 	"strconv"
+	"sync/atomic"
 	"time"
 )
+
+// responseSeq numbers the response PIDs of this process. Two responses that
+// are alive at the same time must never share an ID: the registry would
+// refuse the second one and its reply would go to the first requester.
+var responseSeq atomic.Uint64
 
 type Response struct {
 	engine  *Engine
@@ -20,7 +24,7 @@ func NewResponse(e *Engine, timeout time.Duration) *Response {
 		engine:  e,
 		result:  make(chan any, 1),
 		timeout: timeout,
-		pid:     NewPID(e.address, "response"+pidSeparator+strconv.Itoa(rand.Intn(math.MaxInt32))),
+		pid:     NewPID(e.address, "response"+pidSeparator+strconv.FormatUint(responseSeq.Add(1), 10)),
 	}
 }
 
